@@ -94,6 +94,14 @@ def main():
             print(f"{m['prop']} {m['id']}: {status}{tests} wall={wall:.0f}s " +
                   "; ".join(b.split(":", 1)[0][2:] for b in buckets[:3]) + (("\n" + err) if rc == 2 else ""))
             sys.stdout.flush()
+            if a.seeded and rc in (0, 1):
+                mp = os.path.join(VERIF, "seeded", m["id"], "meta.json")
+                meta = json.load(open(mp))
+                names = sorted({b.split(":", 1)[0].split("bucket=")[-1].strip() for b in buckets})
+                meta["detection"] = {"quick_check_rc": rc, "caught_by_quick": rc == 1, "buckets": names[:8]}
+                with open(mp, "w") as fh:
+                    json.dump(meta, fh, indent=1)
+                    fh.write("\n")
         finally:
             shutil.rmtree(d, ignore_errors=True)
             shutil.rmtree(os.path.join(VERIF, "replays_new"), ignore_errors=True)
